@@ -7,6 +7,7 @@ import Qv.Drv.C09
 import Qv.Drv.C12
 import Qv.Drv.C02
 import Qv.Drv.C07
+import Qv.Drv.C08
 /-! Line protocol: `<op> <json>` per line in, one JSON document per line out. -/
 open Lean
 
@@ -23,7 +24,8 @@ def handlers : List (String × (Json → Except String Json)) := [
   ("C02.dims", Qv.Drv.C02.dims),
   ("C02.matmul", Qv.Drv.C02.matmul),
   ("C07.super", Qv.Drv.C07.superJ),
-  ("C07.liouvillian", Qv.Drv.C07.liouvJ)
+  ("C07.liouvillian", Qv.Drv.C07.liouvJ),
+  ("C08.shuffle", Qv.Drv.C08.shuffleJ)
 ]
 
 def handle (line : String) : String :=
